@@ -11,7 +11,7 @@ RULE = ("programs (depth <= 10) in which leaves and calls are wrapped by the log
         "t(tag, v): typed random programs over operators, literals, index/select, built-ins and host "
         "functions of every extractor kind in both call styles with 0-4+ arguments, macros; dedicated chains "
         "f(f(...f(t(0,1)))) of depth 1-10 per 1-argument function, 2-argument chains in either position, "
-        "receiver chains; observed: ordered host-call log (must equal the reference log exactly) and the "
+        "receiver chains; every construct (each binary / unary operator, ?:, `in` against list literals of 1-5 elements / list and map operands, == chains, has() and select paths of depth 1-4 incl. absent fields, indexing, literals, built-ins in both call styles, every macro's range) with each operand slot filled by 7 operand shapes that bury the logging call (direct, under a select, an index, a two-level select, a map index, a conditional, a macro range); observed: ordered host-call log (must equal the reference log exactly) and the "
         "resolve-step counter (must stay <= 4*N_ref + 16*I_ref + 64); non-trivial = >= 2 logged calls; "
         "distinct = distinct (source, context)")
 ASSUMPTIONS = ["cost is decided on the logical resolve-step counter (hook), never on wall-clock time",
@@ -168,8 +168,121 @@ def chain_programs():
         yield e, 'macro-nest:map'
 
 
+class Shapes:
+    """Operand shapes: an expression of a wanted value with a logging call buried in it."""
+
+    def __init__(self):
+        self.n = 0
+
+    def t(self, e):
+        self.n += 1
+        return ('call', 't', [('lit', I(self.n)), e])
+
+    def shapes(self, v):
+        """v: expression (usually a literal) of the wanted value."""
+        F = lambda name: ('lit', S(name))
+        return [
+            lambda: self.t(v),
+            lambda: ('sel', self.t(('map', [(F('f'), v)])), 'f'),
+            lambda: ('idx', self.t(('list', [v])), ('lit', I(0))),
+            lambda: ('sel', ('sel', self.t(('map', [(F('f'), ('map', [(F('g'), v)]))])), 'f'), 'g'),
+            lambda: ('idx', self.t(('map', [(F('k'), v)])), self.t(F('k'))),
+            lambda: ('cond', self.t(('lit', B(True))), self.t(v), v),
+            lambda: ('idx', ('macro', 'map', self.t(('list', [v])), 'q', [('id', 'q')]), ('lit', I(0))),
+        ]
+
+
+def position_programs(part, nparts):
+    """Every construct with every operand slot filled by every operand shape; yields (expr, family)."""
+    import itertools
+    li = lambda x: ('lit', I(x))
+    ls = lambda x: ('lit', S(x))
+    lb = lambda x: ('lit', B(x))
+    LIST = ('list', [li(1), li(2), li(3)])
+    SL = ('list', [ls('GET'), ls('HEAD'), ls('PUT')])
+    DEEP = ('map', [(ls('a'), ('map', [(ls('b'), ('map', [(ls('c'), li(7))]))])), (ls('method'), ls('PUT'))])
+    X = ('id', 'x')
+    T = []      # (family, hole base values, builder)
+    for op in ('+', '-', '*', '/', '%', '==', '!=', '<', '<=', '>', '>='):
+        T.append(('bin:' + op, [li(7), li(2)], (lambda op: lambda a, b: ('bin', op, a, b))(op)))
+    T.append(('bin:&&', [lb(True), lb(False)], lambda a, b: ('bin', '&&', a, b)))
+    T.append(('bin:||', [lb(False), lb(True)], lambda a, b: ('bin', '||', a, b)))
+    T.append(('un:-', [li(3)], lambda a: ('un', '-', a)))
+    T.append(('un:!', [lb(True)], lambda a: ('un', '!', a)))
+    T.append(('cond', [lb(False), li(1), li(2)], lambda a, b, c: ('cond', a, b, c)))
+    for hit in (1, 2, 3, 9):
+        for n in (1, 2, 3, 4, 5):
+            T.append(('in:list-literal', [li(hit)], (lambda n: lambda a: ('bin', 'in', a, ('list', [li(i + 1) for i in range(n)])))(n)))
+    for hit in ('GET', 'HEAD', 'PUT', 'zz'):
+        T.append(('in:string-list-literal', [ls(hit)], lambda a: ('bin', 'in', a, SL)))
+        T.append(('in:logged-elements', [ls(hit), ls('GET'), ls('PUT')], lambda a, b, c: ('bin', 'in', a, ('list', [b, ls('HEAD'), c]))))
+        T.append(('eq-chain', [ls(hit)], lambda a: ('bin', '||', ('bin', '==', a, ls('GET')), ('bin', '==', a, ls('PUT')))))
+    T.append(('in:list-operand', [li(2), LIST], lambda a, b: ('bin', 'in', a, b)))
+    T.append(('in:map-operand', [ls('a'), DEEP], lambda a, b: ('bin', 'in', a, b)))
+    for path in (['a'], ['a', 'b'], ['a', 'b', 'c'], ['a', 'zz'], ['a', 'b', 'zz'], ['zz', 'b'], ['method'], ['a', 'b', 'c', 'd']):
+        def mk_has(path):
+            def b(root):
+                e = root
+                for f in path[:-1]:
+                    e = ('sel', e, f)
+                return ('has', e, path[-1])
+            return b
+
+        def mk_sel(path):
+            def b(root):
+                e = root
+                for f in path:
+                    e = ('sel', e, f)
+                return e
+            return b
+        T.append(('has:' + str(len(path)), [DEEP], mk_has(path)))
+        T.append(('select:' + str(len(path)), [DEEP], mk_sel(path)))
+        T.append(('has-in-logic:' + str(len(path)), [DEEP, lb(True)], (lambda h: lambda r, c: ('bin', '&&', h(r), c))(mk_has(path))))
+    T.append(('index:list', [LIST, li(1)], lambda a, b: ('idx', a, b)))
+    T.append(('index:map', [DEEP, ls('method')], lambda a, b: ('idx', a, b)))
+    T.append(('literal:list', [li(1), li(2), li(3)], lambda a, b, c: ('list', [a, b, c])))
+    T.append(('literal:map', [ls('k'), li(1), ls('j'), li(2)], lambda a, b, c, d: ('map', [(a, b), (c, d)])))
+    for f, base in (('size', [LIST]), ('string', [li(5)]), ('int', [ls('12')]), ('max', [li(1), li(2)]), ('min', [LIST]), ('double', [li(1)])):
+        T.append(('call:' + f, base, (lambda f: lambda *a: ('call', f, list(a)))(f)))
+        T.append(('mcall:' + f, base, (lambda f: lambda *a: ('mcall', a[0], f, list(a[1:])))(f)))
+    for f in ('startsWith', 'endsWith', 'contains', 'matches'):
+        T.append(('mcall:' + f, [ls('abc'), ls('a')], (lambda f: lambda a, b: ('mcall', a, f, [b]))(f)))
+        T.append(('call:' + f, [ls('abc'), ls('c')], (lambda f: lambda a, b: ('call', f, [a, b]))(f)))
+    T.append(('mcall:contains-list', [LIST, li(2)], lambda a, b: ('mcall', a, 'contains', [b])))
+    for f in ('h2_vv', 'm1_vv', 'c2_sv'):
+        pass
+    for mk in ('all', 'exists', 'exists_one', 'filter', 'map'):
+        T.append(('macro-range:' + mk, [LIST, li(2)], (lambda mk: lambda r, k: ('macro', mk, r, 'x', [('bin', '<', X, k)]))(mk)))
+        T.append(('macro-range-select:' + mk, [LIST], (lambda mk: lambda r: ('macro', mk, r, 'x', [('call', 't', [X, ('bin', '>', X, li(1))])]))(mk)))
+    T.append(('macro-range:map3', [LIST, li(2), li(10)], lambda r, k, m: ('macro', 'map', r, 'x', [('bin', '<', X, k), ('bin', '*', X, m)])))
+    T.append(('macro-in-body', [LIST, li(2)], lambda r, k: ('macro', 'exists', LIST, 'x', [('bin', 'in', ('bin', '+', X, k), r)])))
+    out = []
+    for ti, (fam, bases, build) in enumerate(T):
+        if ti % nparts != part:
+            continue
+        sh = Shapes()
+        nshapes = len(sh.shapes(bases[0]))
+        combos = list(itertools.product(range(nshapes), repeat=len(bases)))
+        if len(combos) > 60:
+            # all single deviations from shape 0 plus the diagonals
+            keep = set()
+            for i in range(len(bases)):
+                for k in range(nshapes):
+                    c = [0] * len(bases)
+                    c[i] = k
+                    keep.add(tuple(c))
+            for k in range(nshapes):
+                keep.add(tuple([k] * len(bases)))
+            combos = sorted(keep)
+        for combo in combos:
+            sh.n = 0
+            args = [sh.shapes(b)[k]() for b, k in zip(bases, combo)]
+            out.append((build(*args), 'positions:' + fam))
+    return out
+
+
 def units(tier, seed):
-    us = [('chains',)]
+    us = [('chains',), ('positions', 0, 3), ('positions', 1, 3), ('positions', 2, 3)]
     for i in range(12 if tier == 'quick' else 200):
         us.append(('random', i))
     return us
@@ -254,6 +367,12 @@ def run_unit(unit, drv, res, seed, tier):
                 src = render_min(e) if form == 'min' else render_full(e)
                 items.append((src, e, [], fam))
         res.exhaustive_done['chains-depth-1-10'] = True
+    elif kind == 'positions':
+        for e, fam in position_programs(unit[1], unit[2]):
+            for form in ('min', 'full'):
+                src = render_min(e) if form == 'min' else render_full(e)
+                items.append((src, e, [], fam))
+        res.exhaustive_done['constructs-x-operand-shapes'] = True
     else:
         rng = rng_for(seed, 'C07', unit[1])
         for _ in range(1200):
